@@ -149,9 +149,11 @@ INFO = {
     "explanation": "For each of the 43 command classes: (a) all fields of the class jointly symbolic -> "
                    "unmarshall_cdb(marshall_cdb(d)) == d and single-field changes do not leak; (b) all CDB bytes "
                    "symbolic with bits the standard leaves undefined = 0 -> marshall_cdb(unmarshall_cdb(b)) == b; "
-                   "(c) a structural comparison of every library field's bit set with the standard's. Each law is a "
-                   "z3 unsat query over the real marshall/unmarshall code.",
-    "functions": ["SCSICommand.marshall_cdb", "SCSICommand.unmarshall_cdb", "converter.encode_dict",
+                   "(c) a structural comparison of every library field's bit set with the standard's; (d) every "
+                   "constructor with all arguments symbolic -> unmarshall_cdb(cmd.cdb) returns the arguments (the ATA "
+                   "pass-through 'lba' field after the documented scsi_to_ata_lba_convert). Each law is a "
+                   "z3 unsat query over the real constructors and marshall/unmarshall code.",
+    "functions": ["<43 command constructors>", "SCSICommand.marshall_cdb", "SCSICommand.unmarshall_cdb", "converter.encode_dict",
                   "converter.decode_bits", "_cdb_bits of every command class"],
     "bounds": {"values": "none (full field widths, all fields jointly)", "cdb bytes": "all 2^(defined bits) strings"},
     "outside": ["CDBs with bits set that the standard leaves reserved", "interleaving with other commands (C09)"],
